@@ -63,6 +63,7 @@ type replayFile struct {
 }
 
 func main() {
+	ir.ReferenceKeys = norm.Reference()
 	flag.Parse()
 	tier := *flagTier
 	if tier == "" {
